@@ -44,6 +44,62 @@ type CKKSCase struct {
 	NewKey    bool   `json:"newKey,omitempty"`
 	OutMode   int    `json:"outMode,omitempty"`
 	PrecExtra int    `json:"precExtra,omitempty"` // encoder precision of the transform protocol = logBound + PrecExtra
+
+	Out        *CKKSOut    `json:"out,omitempty"`        // transform: other output parameters (nil: same parameter set)
+	WithParams bool        `json:"withParams,omitempty"` // build the protocol for (params, params) and derive the instance with WithParams(paramsOut)
+	Second     *CKKSSecond `json:"second,omitempty"`     // a second ciphertext sent through the same protocol instances
+}
+
+// CKKSOut is the output parameter set of a masked linear transformation: ring degree N/2, N or 2N, its own moduli and scale.
+type CKKSOut struct {
+	LogN     int      `json:"logN"`
+	Q        []uint64 `json:"Q"`
+	P        []uint64 `json:"P,omitempty"`
+	LogScale int      `json:"logScale"`
+}
+
+// CKKSSecond describes the second ciphertext of a case.
+type CKKSSecond struct {
+	Seed     uint64  `json:"seed"`
+	ScaleMul float64 `json:"scaleMul"`
+	LevelIn  int     `json:"levelIn"`
+	LevelE   int     `json:"levelE2S"`
+	LevelO   int     `json:"levelOut"`
+	Pattern  string  `json:"pattern"`
+	Merges   []Merge `json:"merges"`
+	OutMode  int     `json:"outMode"`
+}
+
+func (c CKKSCase) outSpec() h.CKKSSpec {
+	if c.Out == nil {
+		return c.Params
+	}
+	o := c.Params
+	o.LogN, o.Q, o.P, o.LogScale = c.Out.LogN, c.Out.Q, c.Out.P, c.Out.LogScale
+	o.Xs, o.Xe = h.DefaultXs, h.DefaultXe
+	return o
+}
+
+func scaleIntOf(logScale int, mul float64) *big.Int {
+	f := new(big.Float).SetPrec(128).SetFloat64(mul)
+	f.Mul(f, new(big.Float).SetPrec(128).SetMantExp(big.NewFloat(1), logScale))
+	i, _ := f.Int(nil)
+	return i
+}
+
+// lambdaHeadroom: for lambda < 64 the masked value may cross Q/2 at the documented minimum level with probability about
+// 2^-lambda per coefficient; such cases are only judged where the modulus has 64-lambda further bits.
+func lambdaHeadroom(lambda int) float64 {
+	if lambda >= 64 {
+		return 0
+	}
+	return float64(64 - lambda)
+}
+
+// needBitsE2S is ceil(logBound + log2 n) of the documented rule.
+func needBitsE2S(lambda int, scale *big.Int, n int) float64 {
+	sf, _ := new(big.Float).SetInt(scale).Float64()
+	return math.Ceil(float64(lambda+int(math.Ceil(math.Log2(sf)))) + math.Log2(float64(n)))
 }
 
 func (c CKKSCase) RandSeed() uint64 { return c.Seed }
@@ -82,7 +138,7 @@ func genCKKSCommon(t *rapid.T, transform bool) CKKSCase {
 	c.Params.NTT = true
 	c.Params.CI = rapid.IntRange(0, 3).Draw(t, "ci") == 0
 	c.Params.LogScale = rapid.IntRange(20, 45).Draw(t, "logScale")
-	c.Lambda = []int{64, 80, 128}[rapid.IntRange(0, 2).Draw(t, "lambda")]
+	c.Lambda = []int{64, 80, 128, 24, 40}[rapid.IntRange(0, 4).Draw(t, "lambda")]
 	c.Parties = rapid.IntRange(1, 8).Draw(t, "parties")
 	c.Sigma = smudgeSigmas[rapid.IntRange(0, len(smudgeSigmas)-1).Draw(t, "sigma")]
 	if rapid.Bool().Draw(t, "pow2scale") {
@@ -99,7 +155,7 @@ func genCKKSCommon(t *rapid.T, transform bool) CKKSCase {
 		c.LogSlots = rapid.IntRange(0, maxLogSlots).Draw(t, "logSlots")
 	}
 	// chain: enough primes for the masks (+ headroom for the growth of a transformed mask) plus 0..2 further levels
-	need := float64(c.Lambda+c.Params.LogScale+1) + math.Ceil(math.Log2(float64(c.Parties))) + float64(c.LogSlots) + 4
+	need := float64(c.Lambda+c.Params.LogScale+1) + math.Ceil(math.Log2(float64(c.Parties))) + float64(c.LogSlots) + 4 + lambdaHeadroom(c.Lambda)
 	var sizes []int
 	acc := 0.0
 	for i := 0; acc < need+1; i++ {
@@ -133,6 +189,12 @@ func genCKKSCommon(t *rapid.T, transform bool) CKKSCase {
 	if minO < 0 {
 		t.Fatalf("generator: chain too short for the output")
 	}
+	if hr := lambdaHeadroom(c.Lambda); hr > 0 {
+		minL = minLevelFor(c.Params.Q, needBitsE2S(c.Lambda, c.scaleInt(), c.Parties)+hr-1e-9)
+		if minL < 0 {
+			t.Fatalf("generator: chain too short for lambda headroom")
+		}
+	}
 	c.LevelE = minL
 	if rapid.IntRange(0, 2).Draw(t, "e2sAboveMin") == 0 {
 		c.LevelE = rapid.IntRange(minL, L).Draw(t, "levelE2S")
@@ -151,18 +213,24 @@ func genCKKSCommon(t *rapid.T, transform bool) CKKSCase {
 }
 
 // minOutLevel is the smallest level at which the re-encrypted shares cannot wrap around: the (possibly transformed and
-// rescaled) masks have at most logBound + log2(n) + [log2(2*slots) for a decode/encode transform] + 1 bits.
+// rescaled) masks have at most logBound + log2(n) + [log2(2*slots) for a decode/encode transform] + 1 bits, times the
+// ratio output scale / ciphertext scale.
 func (c CKKSCase) minOutLevel(transform bool) int {
-	_, logBound, ok := refMinLevel(c.Lambda, c.scaleInt(), c.Parties, c.Params.Q)
-	if !ok {
-		return -1
+	o := c.outSpec()
+	return minOutLevelFor(c.Lambda, c.scaleInt(), c.Parties, c.LogSlots, o.Q, o.LogScale, transform)
+}
+
+func minOutLevelFor(lambda int, scale *big.Int, n, logSlots int, qOut []uint64, logScaleOut int, transform bool) int {
+	sf, _ := new(big.Float).SetInt(scale).Float64()
+	logBound := lambda + int(math.Ceil(math.Log2(sf)))
+	need := float64(logBound) + math.Ceil(math.Log2(float64(n))) + 2 + lambdaHeadroom(lambda)
+	if r := float64(logScaleOut) - math.Log2(sf); r > 0 {
+		need += math.Ceil(r)
 	}
-	need := float64(logBound) + math.Ceil(math.Log2(float64(c.Parties))) + 2
-	// rescaling to the default scale: ratio 2^LogScale / scale <= 1
 	if transform {
-		need += float64(c.LogSlots) + 2
+		need += float64(logSlots) + 2
 	}
-	return minLevelFor(c.Params.Q, need)
+	return minLevelFor(qOut, need)
 }
 
 func genCKKSShares(t *rapid.T) CKKSCase {
@@ -301,8 +369,8 @@ func (c CKKSCase) valid() bool {
 	if c.Params.CI {
 		maxLogSlots = c.Params.LogN
 	}
-	return c.Parties >= 1 && c.Parties <= 8 && validMerges(c.Merges, c.Parties) && c.Sigma > 0 && L >= 0 && c.Lambda >= 64 && c.Lambda <= 256 &&
-		c.LevelIn >= 0 && c.LevelIn <= L && c.LevelE >= 0 && c.LevelE <= c.LevelIn && c.LevelO >= 0 && c.LevelO <= L &&
+	return c.Parties >= 1 && c.Parties <= 8 && validMerges(c.Merges, c.Parties) && c.Sigma > 0 && L >= 0 && c.Lambda >= 16 && c.Lambda <= 256 &&
+		c.LevelIn >= 0 && c.LevelIn <= L && c.LevelE >= 0 && c.LevelE <= c.LevelIn && c.LevelO >= 0 && c.LevelO <= len(c.outSpec().Q)-1 &&
 		c.ScaleMul >= 1 && c.ScaleMul < 2 && c.Params.LogScale >= 10 && c.Params.LogScale <= 50 && c.LogSlots >= 0 && c.LogSlots <= maxLogSlots &&
 		c.OutMode >= 0 && c.OutMode <= 2 && c.PrecExtra >= 0 && c.PrecExtra <= 256 && (c.Batched || c.LogSlots == maxLogSlots)
 }
@@ -332,75 +400,28 @@ func setupCKKS(c CKKSCase, transform bool, rec *h.Rec) (*ckksCtx, error) {
 	if c.LevelE < minLevel {
 		return nil, nil // below the protocol minimum
 	}
+	if hr := lambdaHeadroom(c.Lambda); hr > 0 && chainBits(c.Params.Q, c.LevelE) < needBitsE2S(c.Lambda, x.scale, n)+hr-1e-9 {
+		return nil, nil // lambda < 64 without headroom: a wrap-around is not negligible, not judged
+	}
 	if mo := c.minOutLevel(transform); mo < 0 || c.LevelO < mo {
 		return nil, nil
 	}
 	x.logBound = logBound
 
-	ringQ := params.RingQ().AtLevel(c.LevelIn)
 	slots := 1 << c.LogSlots
 	x.dslots = slots
 	if params.RingType() == ring.Standard {
 		x.dslots *= 2
 	}
 	x.gap = params.N() / x.dslots
-	rng := h.NewSplitMix(c.Seed)
 	x.in = newKeySet(params.Parameters, n, nil)
 
-	pt := ckks.NewPlaintext(params, c.LevelIn)
-	pt.Scale = scale
-	pt.LogDimensions.Cols = c.LogSlots
-	if c.Batched {
-		x.values = make([]*bignum.Complex, slots)
-		for i := range x.values {
-			re, im := 0.0, 0.0
-			switch c.Pattern {
-			case "zero":
-			case "one":
-				re = 1
-			case "onehot":
-			default:
-				re, im = 2*rng.Float64()-1, 2*rng.Float64()-1
-			}
-			if params.RingType() == ring.ConjugateInvariant {
-				im = 0
-			}
-			x.values[i] = &bignum.Complex{new(big.Float).SetPrec(256).SetFloat64(re), new(big.Float).SetPrec(256).SetFloat64(im)}
-		}
-		if c.Pattern == "onehot" {
-			x.values[rng.Intn(slots)][0].SetFloat64(-1)
-		}
-		if err := ckks.NewEncoder(params, 256).Encode(x.values, pt); err != nil {
-			return nil, h.Failf("C16:setup:encode", "%v", err)
-		}
-	} else {
-		// non-batched plaintext: integer coefficients set directly
-		pt.IsBatched = false
-		coeffs := make([]*big.Int, params.N())
-		for i := range coeffs {
-			v := new(big.Int).SetUint64(rng.Uint64() % (2 * x.scale.Uint64()))
-			coeffs[i] = v.Sub(v, x.scale)
-			if c.Pattern == "zero" {
-				coeffs[i].SetInt64(0)
-			}
-		}
-		ringQ.SetCoefficientsBigint(coeffs, pt.Value)
-		ringQ.NTT(pt.Value, pt.Value)
+	msg, err := x.newMsg(c.Seed, c.LevelIn, x.scale, c.Pattern, c.Batched)
+	if msg == nil || err != nil {
+		return nil, err
 	}
-	// read the integer plaintext back: a_j at positions j*gap, everything else must be zero
-	all := toCoeffs(ringQ, pt.Value, true)
-	x.a = make([]*big.Int, x.dslots)
-	for j, v := range all {
-		if j%x.gap == 0 {
-			x.a[j/x.gap] = v
-		} else if v.Sign() != 0 {
-			return nil, nil // encoder did not produce a polynomial in Y = X^gap: outside what the protocol assumes
-		}
-	}
-	x.ct = ckks.NewCiphertext(params, 1, c.LevelIn)
-	if err := rlwe.NewEncryptor(params, x.in.ideal).Encrypt(pt, x.ct); err != nil {
-		return nil, h.Failf("C16:setup:encrypt", "%v", err)
-	}
+	msg.logBound = logBound
+	x.ct, x.a, x.values = msg.ct, msg.a, msg.values
 	x.noise = ring.DiscreteGaussian{Sigma: c.Sigma, Bound: 6 * c.Sigma}
 	x.crs = h.KeyedPRNG(fmt.Sprintf("c16-crs-%d", c.Seed))
 	eSigma := math.Sqrt(params.NoiseFreshSK()*params.NoiseFreshSK() + c.Sigma*c.Sigma)
@@ -430,6 +451,80 @@ func setupCKKS(c CKKSCase, transform bool, rec *h.Rec) (*ckksCtx, error) {
 		rec.Class("levelE2S<levelIn")
 	}
 	return x, nil
+}
+
+// ckksMsg is one encrypted message together with the harness' knowledge about it.
+type ckksMsg struct {
+	ct       *rlwe.Ciphertext
+	a        []*big.Int // integer plaintext coefficients at the gap positions (dslots of them)
+	values   []*bignum.Complex
+	scale    *big.Int
+	logBound uint
+	levelIn  int
+}
+
+// newMsg encodes and encrypts a fresh message under the collective input key (nil, nil: not a polynomial in Y = X^gap).
+func (x *ckksCtx) newMsg(seed uint64, levelIn int, scale *big.Int, pattern string, batched bool) (*ckksMsg, error) {
+	c, params := x.c, x.params
+	rng := h.NewSplitMix(seed)
+	slots := 1 << c.LogSlots
+	ringQ := params.RingQ().AtLevel(levelIn)
+	m := &ckksMsg{scale: scale, levelIn: levelIn}
+	pt := ckks.NewPlaintext(params, levelIn)
+	pt.Scale = rlwe.NewScale(scale)
+	pt.LogDimensions.Cols = c.LogSlots
+	if batched {
+		m.values = make([]*bignum.Complex, slots)
+		for i := range m.values {
+			re, im := 0.0, 0.0
+			switch pattern {
+			case "zero":
+			case "one":
+				re = 1
+			case "onehot":
+			default:
+				re, im = 2*rng.Float64()-1, 2*rng.Float64()-1
+			}
+			if params.RingType() == ring.ConjugateInvariant {
+				im = 0
+			}
+			m.values[i] = &bignum.Complex{new(big.Float).SetPrec(256).SetFloat64(re), new(big.Float).SetPrec(256).SetFloat64(im)}
+		}
+		if pattern == "onehot" {
+			m.values[rng.Intn(slots)][0].SetFloat64(-1)
+		}
+		if err := ckks.NewEncoder(params, 256).Encode(m.values, pt); err != nil {
+			return nil, h.Failf("C16:setup:encode", "%v", err)
+		}
+	} else {
+		// non-batched plaintext: integer coefficients set directly
+		pt.IsBatched = false
+		coeffs := make([]*big.Int, params.N())
+		for i := range coeffs {
+			v := new(big.Int).SetUint64(rng.Uint64() % (2 * scale.Uint64()))
+			coeffs[i] = v.Sub(v, scale)
+			if pattern == "zero" {
+				coeffs[i].SetInt64(0)
+			}
+		}
+		ringQ.SetCoefficientsBigint(coeffs, pt.Value)
+		ringQ.NTT(pt.Value, pt.Value)
+	}
+	// read the integer plaintext back: a_j at positions j*gap, everything else must be zero
+	all := toCoeffs(ringQ, pt.Value, true)
+	m.a = make([]*big.Int, x.dslots)
+	for j, v := range all {
+		if j%x.gap == 0 {
+			m.a[j/x.gap] = v
+		} else if v.Sign() != 0 {
+			return nil, nil // encoder did not produce a polynomial in Y = X^gap: outside what the protocol assumes
+		}
+	}
+	m.ct = ckks.NewCiphertext(params, 1, levelIn)
+	if err := rlwe.NewEncryptor(params, x.in.ideal).Encrypt(pt, m.ct); err != nil {
+		return nil, h.Failf("C16:setup:encrypt", "%v", err)
+	}
+	return m, nil
 }
 
 // embed places dslots big integers at the gap positions of a polynomial (coefficient domain) and returns its NTT.
@@ -728,23 +823,26 @@ func runCKKSSharesBody(c CKKSCase, rec *h.Rec) error {
 // checkOutput decrypts out under sk and compares the integer plaintext with want (at the gap positions) within tol and
 // with zero (elsewhere) within tolOff.
 func (x *ckksCtx) checkOutput(key string, out *rlwe.Ciphertext, sk *rlwe.SecretKey, want []*big.Float, tol, tolOff float64, rec *h.Rec) error {
-	params := x.params
+	return x.checkOutputP(x.params, x.gap, key, out, sk, want, tol, tolOff, rec)
+}
+
+func (x *ckksCtx) checkOutputP(params ckks.Parameters, gap int, key string, out *rlwe.Ciphertext, sk *rlwe.SecretKey, want []*big.Float, tol, tolOff float64, rec *h.Rec) error {
 	pt := rlwe.NewDecryptor(params, sk).DecryptNew(out)
 	ringQ := params.RingQ().AtLevel(out.Level())
 	got := toCoeffs(ringQ, pt.Value, pt.IsNTT)
 	tolB := new(big.Float).SetPrec(512).SetFloat64(math.Ceil(tol))
 	for j, g := range got {
 		gf := new(big.Float).SetPrec(512).SetInt(g)
-		if j%x.gap == 0 {
-			d := new(big.Float).SetPrec(512).Sub(gf, want[j/x.gap])
+		if j%gap == 0 {
+			d := new(big.Float).SetPrec(512).Sub(gf, want[j/gap])
 			if d.Abs(d).Cmp(tolB) > 0 {
 				df, _ := d.Float64()
-				wf, _ := want[j/x.gap].Float64()
+				wf, _ := want[j/gap].Float64()
 				return h.Failf(key, "coefficient %d of the decrypted output differs from the expected scaled message by 2^%.1f > bound 2^%.1f (expected %.6g, scale 2^%.1f, n=%d, levels in=%d e2s=%d out=%d, sigma=%g, logBound=%d)",
 					j, math.Log2(df), math.Log2(tol), wf, log2Big(x.scale), x.c.Parties, x.c.LevelIn, x.c.LevelE, x.c.LevelO, x.c.Sigma, x.logBound)
 			}
 		} else if new(big.Int).Abs(g).Cmp(bigF(tolOff)) > 0 {
-			return h.Failf(key+":off-gap", "coefficient %d (not a multiple of the gap %d) of the decrypted output is 2^%.1f > re-encryption noise bound 2^%.1f", j, x.gap, log2Big(g), math.Log2(tolOff))
+			return h.Failf(key+":off-gap", "coefficient %d (not a multiple of the gap %d) of the decrypted output is 2^%.1f > re-encryption noise bound 2^%.1f", j, gap, log2Big(g), math.Log2(tolOff))
 		}
 	}
 	return nil
